@@ -36,13 +36,13 @@ def framesBehindHost (s : Spectator) : M Nat := do
 def trimEvents (s : Spectator) : Spectator :=
   { s with eventQueue := s.eventQueue.drop (s.eventQueue.length - MAX_EVENT_QUEUE_SIZE) }
 
-def handleEventCore (s : Spectator) (ev : ProtoEvent) (addr : Nat) : M Spectator :=
+def handleEventCore (s : Spectator) (now : Nat) (ev : ProtoEvent) (addr : Nat) : M Spectator :=
   match ev with
     | .synchronizing total count => pure { s with eventQueue := s.eventQueue ++ [.synchronizing addr total count] }
     | .networkInterrupted t => pure { s with eventQueue := s.eventQueue ++ [.networkInterrupted addr t] }
     | .networkResumed => pure { s with eventQueue := s.eventQueue ++ [.networkResumed addr] }
     | .synchronized => pure { s with running := true, eventQueue := s.eventQueue ++ [.synchronized addr] }
-    | .disconnected => pure { s with eventQueue := s.eventQueue ++ [.disconnected addr] }
+    | .disconnected => pure { s with host := s.host.disconnect now, eventQueue := s.eventQueue ++ [.disconnected addr] }
     | .input inp player => do
       let slot := frameIdx inp.frame SPECTATOR_BUFFER_SIZE
       ensure (player < s.numPlayers) "spectator handle_event: player index out of bounds"
@@ -53,8 +53,8 @@ def handleEventCore (s : Spectator) (ev : ProtoEvent) (addr : Nat) : M Spectator
       let s := { s with host }
       pure { s with hostConnectStatus := (List.range s.numPlayers).map fun i => rget s.host.peerConnectStatus i }
 
-def handleEvent (s : Spectator) (ev : ProtoEvent) (addr : Nat) : M Spectator := do
-  let s ← s.handleEventCore ev addr
+def handleEvent (s : Spectator) (now : Nat) (ev : ProtoEvent) (addr : Nat) : M Spectator := do
+  let s ← s.handleEventCore now ev addr
   return s.trimEvents
 
 def pollRemoteClients (s : Spectator) (now : Nat) (received : List (Nat × Msg)) : M Spectator := do
@@ -62,7 +62,7 @@ def pollRemoteClients (s : Spectator) (now : Nat) (received : List (Nat × Msg))
     if from_ == h.peerAddr then h.handleMessage now msg else pure h) s.host
   let (host, evs) ← host.poll now s.hostConnectStatus
   let s := { s with host }
-  let s ← evs.foldlM (fun s ev => s.handleEvent ev s.host.peerAddr) s
+  let s ← evs.foldlM (fun s ev => s.handleEvent now ev s.host.peerAddr) s
   let (host, msgs) := s.host.sendAllMessages
   return { s with host, outbox := s.outbox ++ msgs.map fun m => (host.peerAddr, m) }
 
